@@ -12,10 +12,13 @@ package parsing
 spec fn decOK(c core.PubkeyConverter, s string) bool
 spec fn decLen(c core.PubkeyConverter, s string) int
 spec fn decByte(c core.PubkeyConverter, s string, k int) byte
+// the same function at the level of whole byte strings (the view bytes.Equal compares)
+spec fn decStr(c core.PubkeyConverter, s string) string
 spec fn decodesTo(c core.PubkeyConverter, s string, b []byte) bool = len(b) == decLen(c, s) && (forall k :: 0 <= k && k < len(b) ==> b[k] == decByte(c, s, k))
 
 func (c core.PubkeyConverter) Decode(humanReadable string) (r []byte, err error)
   ensures  decode-is-a-function-of-the-text: err == nil ==> decOK(c, humanReadable) && decodesTo(c, humanReadable, r)
+  ensures  decode-is-a-function-of-the-text-str: err == nil ==> str(r) == decStr(c, humanReadable)
   ensures  decode-fails-on-undecodable-text: err != nil ==> !decOK(c, humanReadable)
   assigns  nothing
 
@@ -48,6 +51,7 @@ func (ap *accountsParser) parseElement(initialAccount *data.InitialAccount) (err
   requires entry-decoded: entryFilled(initialAccount)
   requires converter-set: ap.pubkeyConverter != nil && ap.keyGenerator != nil
   ensures  address-decoded: err == nil ==> len(initialAccount.Address) > 0 && decOK(ap.pubkeyConverter, initialAccount.Address) && decodesTo(ap.pubkeyConverter, initialAccount.Address, initialAccount.addressBytes)
+  ensures  address-decoded-str: err == nil ==> str(initialAccount.addressBytes) == decStr(ap.pubkeyConverter, initialAccount.Address)
   assigns  initialAccount.addressBytes, initialAccount.Delegation.addressBytes
 @*/
 
@@ -67,27 +71,37 @@ spec fn lensDecoded(c core.PubkeyConverter, s []*data.InitialAccount, n int) boo
 spec fn bytesDecoded(c core.PubkeyConverter, s []*data.InitialAccount, n int) bool = forall k int, m int :: 0 <= k && k < n && 0 <= m && m < decLen(c, entry(s, k).Address) ==> entry(s, k).addressBytes[m] == decByte(c, entry(s, k).Address, m)
 spec fn textsDiffer(s []*data.InitialAccount, lo int, hi int) bool = forall i int, j int :: 0 <= i && i < lo && i < j && j < hi ==> entry(s, i).Address != entry(s, j).Address
 
+spec fn strsDecoded(c core.PubkeyConverter, s []*data.InitialAccount, n int) bool = forall k :: 0 <= k && k < n ==> str(entry(s, k).addressBytes) == decStr(c, entry(s, k).Address)
+// no two of the entries i < lo, i < j < hi have equal address bytes (strsDiffer: the same over the byte strings, the form
+// in which equal texts => equal decodings contradicts it without byte-level reasoning)
+spec fn strsDiffer(s []*data.InitialAccount, lo int, hi int) bool = forall i int, j int :: 0 <= i && i < lo && i < j && j < hi ==> str(entry(s, i).addressBytes) != str(entry(s, j).addressBytes)
+spec fn bytesDiffer(s []*data.InitialAccount, lo int, hi int) bool = forall i int, j int :: 0 <= i && i < lo && i < j && j < hi ==> !bytesEq(entry(s, i).addressBytes, entry(s, j).addressBytes)
+
 func (ap *accountsParser) checkForDuplicates() (err error)
   requires entries-present: forall k :: 0 <= k && k < len(ap.initialAccounts) ==> entry(ap.initialAccounts, k) != nil
   requires addresses-decoded: lensDecoded(ap.pubkeyConverter, ap.initialAccounts, len(ap.initialAccounts))
   requires addresses-decoded-bytes: bytesDecoded(ap.pubkeyConverter, ap.initialAccounts, len(ap.initialAccounts))
+  requires addresses-decoded-str: strsDecoded(ap.pubkeyConverter, ap.initialAccounts, len(ap.initialAccounts))
+  // two entries with the same text carry the same decoding, so distinct bytes imply distinct texts
   ensures  distinct-text: err == nil ==> textsDiffer(ap.initialAccounts, len(ap.initialAccounts), len(ap.initialAccounts))
   ensures  distinct-bytes: err == nil ==> (forall i int, j int :: 0 <= i && i < j && j < len(ap.initialAccounts) ==> !bytesEq(entry(ap.initialAccounts, i).addressBytes, entry(ap.initialAccounts, j).addressBytes))
-  // the instance of distinct-bytes for a list of two entries (gives the solvers a bounded counterexample search)
+  // the instance of distinct-bytes for a list of two entries (bounded counterexample search: refuted before the repair of F47)
   ensures  distinct-bytes-of-two-entries: err == nil && len(ap.initialAccounts) == 2 ==> !bytesEq(entry(ap.initialAccounts, 0).addressBytes, entry(ap.initialAccounts, 1).addressBytes)
   assigns  nothing
 
-// (F47) once the comparison is made on AddressBytes(), replace textsDiffer in the invariants of both loops by the same
-// predicate over !bytesEq(entry(s, i).addressBytes, entry(s, j).addressBytes); distinct-bytes then follows like distinct-text
+// the comparison is made on AddressBytes() (repair of F47): the invariants speak about the bytes
 loop 1
   invariant 0 <= idx1 && idx1 <= len(ap.initialAccounts)
-  invariant textsDiffer(ap.initialAccounts, idx1, len(ap.initialAccounts))
+  invariant bytesDiffer(ap.initialAccounts, idx1, len(ap.initialAccounts))
+  invariant strsDiffer(ap.initialAccounts, idx1, len(ap.initialAccounts))
 
 loop 2
   invariant 0 <= idx1 && idx1 < len(ap.initialAccounts) && idx1 < idx2 && idx2 <= len(ap.initialAccounts)
   invariant ia1 == entry(ap.initialAccounts, idx1)
-  invariant textsDiffer(ap.initialAccounts, idx1, len(ap.initialAccounts))
-  invariant forall j :: idx1 < j && j < idx2 ==> ia1.Address != entry(ap.initialAccounts, j).Address
+  invariant bytesDiffer(ap.initialAccounts, idx1, len(ap.initialAccounts))
+  invariant forall j :: idx1 < j && j < idx2 ==> !bytesEq(ia1.addressBytes, entry(ap.initialAccounts, j).addressBytes)
+  invariant strsDiffer(ap.initialAccounts, idx1, len(ap.initialAccounts))
+  invariant forall j :: idx1 < j && j < idx2 ==> str(ia1.addressBytes) != str(entry(ap.initialAccounts, j).addressBytes)
 @*/
 
 /*@
@@ -113,4 +127,5 @@ loop 1
   invariant forall k :: 0 <= k && k <= rangeindex ==> entryOK(entry(ap.initialAccounts, k))
   invariant lensDecoded(ap.pubkeyConverter, ap.initialAccounts, rangeindex + 1)
   invariant bytesDecoded(ap.pubkeyConverter, ap.initialAccounts, rangeindex + 1)
+  invariant strsDecoded(ap.pubkeyConverter, ap.initialAccounts, rangeindex + 1)
 @*/
